@@ -115,6 +115,114 @@ func ObservedRequests(sc *sims.Scenario, out *sims.Outcome, pos int) []string {
 	return seq
 }
 
+// traceSpec checks the certificate's exchanges against the trace
+// specification of the statement (not against one predicted sequence, so that
+// e.g. a retry of a responder is not an alarm):
+//
+//	OCSP* CRL*        per certificate, never an OCSP exchange after a CRL one;
+//	OCSP part         responders in certificate order (slots never decrease);
+//	                  nothing at all after a delivered Good / Revoked answer,
+//	                  no further OCSP exchange after a delivered unknown-status answer;
+//	CRL part          only if no Good / Revoked OCSP answer was delivered; points in
+//	                  certificate order; nothing after a point that was delivered bad
+//	                  or revoking; present (at least one exchange) whenever the OCSP
+//	                  phase ended without a Good / Revoked answer and the first point is reachable;
+//	ocsp.CheckStatus  never any CRL exchange.
+func traceSpec(sc *sims.Scenario, out *sims.Outcome, pos int) string {
+	p := sc.Plans[pos]
+	type ex struct {
+		typ       string // o | d
+		slot      int
+		part      string
+		good, rev bool
+		decisive  bool
+		stops     bool // CRL: this point ends the scan (bad or revoking)
+		delivered bool
+	}
+	var seq []*ex
+	open := map[string]*ex{}
+	for _, e := range out.Log {
+		switch e.Kind {
+		case "request":
+			ps, typ, slot, part, ok := sims.RouteOf(e.Route)
+			if !ok || ps != pos {
+				continue
+			}
+			x := &ex{typ: typ, slot: slot, part: part}
+			seq = append(seq, x)
+			open[e.Route] = x
+		case "deliver":
+			if x := open[e.Route]; x != nil {
+				x.delivered, x.good, x.rev, x.decisive = true, e.Good, e.Revoked, e.Decisive
+				if x.typ == "d" {
+					cls, _ := e.Meta.(string)
+					x.stops = cls == sims.CRLBad || cls == sims.CRLRevoked
+				}
+			}
+		case "fetch":
+			ps, _, slot, _, ok := sims.RouteOf(strings.TrimPrefix(e.Route, "http://"))
+			if !ok || ps != pos {
+				continue
+			}
+			cls := sims.CRLBad
+			if slot < len(p.CRL) {
+				cls = sims.CRLClass(p.CRL[slot])
+				if p.Shape.Freshest && !sims.CRLHasDelta(p.CRL[slot]) {
+					cls = sims.CRLBad
+				}
+			}
+			seq = append(seq, &ex{typ: "d", slot: slot, part: "base", delivered: true, good: cls == sims.CRLOK, rev: cls == sims.CRLRevoked, stops: cls == sims.CRLBad || cls == sims.CRLRevoked})
+		}
+	}
+	sawCRL, final, ocspDone := false, false, false
+	lastO, lastD, stoppedAt := -1, -1, -1
+	for _, x := range seq {
+		if final {
+			return "an exchange after a delivered Good / Revoked OCSP answer"
+		}
+		switch x.typ {
+		case "o":
+			if sawCRL {
+				return "an OCSP exchange after a CRL exchange"
+			}
+			if ocspDone {
+				return "an OCSP exchange after a delivered unknown-status answer"
+			}
+			if x.slot < lastO {
+				return "responders asked out of certificate order"
+			}
+			lastO = x.slot
+			if x.delivered && x.decisive {
+				if x.good || x.rev {
+					final = true
+				} else {
+					ocspDone = true
+				}
+			}
+		case "d":
+			if sc.Entry == "ocsp" {
+				return "the standalone OCSP entry point touched a CRL location"
+			}
+			sawCRL = true
+			if stoppedAt >= 0 && x.slot > stoppedAt {
+				return "a CRL exchange for a later distribution point after one that already ended the scan"
+			}
+			if x.slot < lastD {
+				return "distribution points fetched out of certificate order"
+			}
+			lastD = x.slot
+			if x.part == "base" && x.delivered && x.stops && stoppedAt < 0 {
+				stoppedAt = x.slot
+			}
+		}
+	}
+	// the fallback must happen when it is due
+	if sc.Entry != "ocsp" && !final && !sawCRL && len(p.Shape.CRL) > 0 && sims.IsHTTPKind(p.Shape.CRL[0]) {
+		return "OCSP ended without a Good / Revoked answer (or is absent) and the certificate names a reachable CRL distribution point, yet no CRL exchange followed"
+	}
+	return ""
+}
+
 func judge(r *core.Run, sc *sims.Scenario, out *sims.Outcome) {
 	r.Eval(1)
 	if out.Panic != nil {
@@ -141,12 +249,14 @@ func judge(r *core.Run, sc *sims.Scenario, out *sims.Outcome) {
 		if i == sc.Len-1 {
 			continue
 		}
-		want := ExpectedRequests(sc, i)
 		have := ObservedRequests(sc, out, i)
-		if strings.Join(want, " ") != strings.Join(have, " ") {
+		if msg := traceSpec(sc, out, i); msg != "" {
 			r.Violation(fmt.Sprintf("request-trace:%s:o=%s:c=%s", sc.Entry, classes(sc, i, true), classes(sc, i, false)),
-				fmt.Sprintf("certificate %d: exchanges %v, the trace specification allows exactly %v", i, have, want), sc)
+				fmt.Sprintf("certificate %d: exchanges %v break the trace specification: %s (the straightforward walk would be %v)", i, have, msg, ExpectedRequests(sc, i)), sc)
 			return
+		}
+		if strings.Join(ExpectedRequests(sc, i), " ") == strings.Join(have, " ") {
+			r.Count("trace-equals-straightforward-walk", 1)
 		}
 		r.Count("exchanges", len(have))
 	}
@@ -204,6 +314,19 @@ func run(r *core.Run) int {
 			}
 		}
 	}
+	for _, kinds := range [][]string{{"ldap"}, {"https"}, {"ftp", "ldap"}, {"unparsable"}, {"ldap", "http"}} {
+		for _, o := range [][]string{{}, {"err"}, {"unknown-status"}, {"good"}} {
+			for _, entry := range []string{"validate", "ocsp", "validate-deprecated"} {
+				sc := &sims.Scenario{Len: 2, CAKind: "p256", Entry: entry, CRLRoute: "http"}
+				pl := plan(o, make([]string, len(kinds)))
+				for j := range kinds {
+					pl.Shape.CRL[j], pl.CRL[j] = kinds[j], "clean"
+				}
+				sc.Plans = []sims.CertPlan{pl, {}}
+				add(sc)
+			}
+		}
+	}
 	r.Set("complete_table_cells", len(jobs))
 	// responders that never answer: the client's own (short, real) timeout ends
 	// the OCSP phase, and the CRL phase must still run to completion afterwards
@@ -249,6 +372,17 @@ func run(r *core.Run) int {
 		sc.Plans = make([]sims.CertPlan, l)
 		for pos := 0; pos < l-1; pos++ {
 			sc.Plans[pos] = plan(pickVec(ocspAlpha, 3), pickVec(crlAlpha, 3))
+			// sources that cannot be reached over http are sources all the same
+			for j := range sc.Plans[pos].Shape.OCSP {
+				if rng.IntN(8) == 0 {
+					sc.Plans[pos].Shape.OCSP[j] = []string{"https", "ldap", "unparsable", "empty", "relative"}[rng.IntN(5)]
+				}
+			}
+			for j := range sc.Plans[pos].Shape.CRL {
+				if rng.IntN(6) == 0 {
+					sc.Plans[pos].Shape.CRL[j] = []string{"https", "ldap", "ftp", "unparsable", "relative"}[rng.IntN(5)]
+				}
+			}
 		}
 		add(sc)
 	}
